@@ -93,11 +93,22 @@ def RegOnlyWf (app : App) : Bool := RegOnly app && app.instrs.all (labelOk app)
 /-- a store -/
 def isStoreType (t : Gen.InstructionType) : Bool := t == .Sb || t == .Sh || t == .Sw
 
-/-- an instruction of a straight-line program with loads (package R60d): no store, no branch or jump, no `ret` -/
+/-- an instruction of a straight-line program with loads (package R60d): no store, no branch or jump, no `ret`, no
+`div`/`rem` (with loads in flight a younger instruction may execute before an older one: an error value of a `div`/`rem`
+would have to be ordered against the results of the instructions around it) -/
 def ldInstr (i : Gen.Instr) : Bool :=
-  !isStoreType i.instructionType && !i.instructionType.IsBranch && !(i.instructionType == .Ret)
+  !isStoreType i.instructionType && !i.instructionType.IsBranch && !(i.instructionType == .Ret) && !isDivRem i.instructionType
 
 /-- **straight-line programs with memory reads** (`lb`, `lh`, `lw` allowed; package R60d) -/
 def StraightLineLd (app : App) : Bool := app.instrs.all ldInstr
+
+/-- as `ldInstr`, `ret` allowed -/
+def ldrInstr (i : Gen.Instr) : Bool :=
+  !isStoreType i.instructionType && !i.instructionType.IsBranch && !isDivRem i.instructionType
+
+/-- **straight-line programs with memory reads that may end with a `ret`**: a `ret` is allowed as the LAST instruction of
+the program text only (package R60d; with an instruction behind a `ret` the machine is wrong on two and more units:
+R60-defect-2) -/
+def StraightLineLdRet (app : App) : Bool := app.instrs.dropLast.all ldInstr && app.instrs.all ldrInstr
 
 end Model.Mvp60
